@@ -323,9 +323,10 @@ class DistinctCountCheck(AbstractCheck):
                 "cannot evaluate count expression %r: %s" % (self._expression, message), self.location_of_rule
             )
         if not isinstance(result, bool):
+            # The result is described by its type because it can be a number too big to be printed.
             raise errors.InterfaceError(
-                "count expression %r must result in %r or %r, but test resulted in: %r"
-                % (self._expression, True, False, result),
+                "count expression %r must result in %r or %r, but test resulted in a value of type: %s"
+                % (self._expression, True, False, type(result).__name__),
                 self.location_of_rule,
             )
         return result
